@@ -1997,9 +1997,14 @@ insert_list:
         else
             state ++;
         if (state == 0 && cvar.q.th) {
-            if (cvar.q.th && (cvar.q.th->rwlock_mark & WLOCK)) {
-                cvar.notify_one();
-            } else
+            // wake the head of the queue, whoever it is at this moment, and
+            // if it is a reader also the run of readers behind it. (Peeking
+            // at the head first and then waking "readers only" lost the
+            // wake-up when that reader left the queue in between -- timeout
+            // or interrupt on another vCPU -- and a writer became the head:
+            // nobody was woken and every waiter slept on a free lock.)
+            auto th = cvar.notify_one();
+            if (th && (th->rwlock_mark & RLOCK))
                 while (cvar.q.th && (cvar.q.th->rwlock_mark & RLOCK)) {
                     cvar.notify_one();
                 }
